@@ -1,0 +1,234 @@
+// Copyright 2017-2021 Lei Ni (nilei81@gmail.com) and other contributors.
+//
+// Licensed under the Apache License, Version 2.0 (the "License");
+// you may not use this file except in compliance with the License.
+// You may obtain a copy of the License at
+//
+//     http://www.apache.org/licenses/LICENSE-2.0
+//
+// Unless required by applicable law or agreed to in writing, software
+// distributed under the License is distributed on an "AS IS" BASIS,
+// WITHOUT WARRANTIES OR CONDITIONS OF ANY KIND, either express or implied.
+// See the License for the specific language governing permissions and
+// limitations under the License.
+
+//go:build verif
+
+package raft
+
+import (
+	"sort"
+
+	"github.com/lni/dragonboat/v4/internal/server"
+	pb "github.com/lni/dragonboat/v4/raftpb"
+)
+
+// This file only exists under the verif build tag. It gives external runtime
+// monitors read-only access to the raft core state and a thin wrapper around
+// the unexported entryLog. Nothing here changes behaviour.
+
+// VerifView is a read-only snapshot of the raft core state of a Peer.
+type VerifView struct {
+	Role                string
+	Term                uint64
+	Vote                uint64
+	LeaderID            uint64
+	Committed           uint64
+	Processed           uint64
+	Applied             uint64
+	FirstIndex          uint64
+	LastIndex           uint64
+	LastTerm            uint64
+	Voters              []uint64
+	NonVotings          []uint64
+	Witnesses           []uint64
+	PendingConfigChange bool
+	ReadIndexQueueLen   int
+	LeaderTransferTo    uint64
+	Quorum              int
+}
+
+func sortedIDs(m map[uint64]*remote) []uint64 {
+	r := make([]uint64, 0, len(m))
+	for id := range m {
+		r = append(r, id)
+	}
+	sort.Slice(r, func(i, j int) bool { return r[i] < r[j] })
+	return r
+}
+
+// VerifView returns a read-only view of the raft state.
+func (p *Peer) VerifView() VerifView {
+	r := p.raft
+	lt, _ := r.log.term(r.log.lastIndex())
+	return VerifView{
+		Role:                r.state.String(),
+		Term:                r.term,
+		Vote:                r.vote,
+		LeaderID:            r.leaderID,
+		Committed:           r.log.committed,
+		Processed:           r.log.processed,
+		Applied:             r.applied,
+		FirstIndex:          r.log.firstIndex(),
+		LastIndex:           r.log.lastIndex(),
+		LastTerm:            lt,
+		Voters:              sortedIDs(r.remotes),
+		NonVotings:          sortedIDs(r.nonVotings),
+		Witnesses:           sortedIDs(r.witnesses),
+		PendingConfigChange: r.pendingConfigChange,
+		ReadIndexQueueLen:   len(r.readIndex.queue),
+		LeaderTransferTo:    r.leaderTransferTarget,
+		Quorum:              r.quorum(),
+	}
+}
+
+// VerifTerm returns the term of the entry at index as known to the raft log,
+// 0 when unknown.
+func (p *Peer) VerifTerm(index uint64) uint64 {
+	t, err := p.raft.log.term(index)
+	if err != nil {
+		return 0
+	}
+	return t
+}
+
+// VerifMatch returns the leader's match index of every voting member and
+// witness.
+func (p *Peer) VerifMatch() map[uint64]uint64 {
+	out := make(map[uint64]uint64)
+	for id, rm := range p.raft.votingMembers() {
+		out[id] = rm.match
+	}
+	return out
+}
+
+// VerifRemoteStates returns the flow control state of each remote.
+func (p *Peer) VerifRemoteStates() map[uint64]string {
+	out := make(map[uint64]string)
+	for _, m := range []map[uint64]*remote{p.raft.remotes, p.raft.nonVotings, p.raft.witnesses} {
+		for id, rm := range m {
+			out[id] = rm.state.String()
+		}
+	}
+	return out
+}
+
+// VerifSetHasNotAppliedConfigChange installs the callback node.go installs
+// to let the raft core know whether there is a config change not applied.
+func (p *Peer) VerifSetHasNotAppliedConfigChange(f func() bool) {
+	p.raft.hasNotAppliedConfigChange = f
+}
+
+// VerifLog is an exported wrapper of the unexported entryLog.
+type VerifLog struct {
+	l *entryLog
+}
+
+// NewVerifLog creates an entryLog on top of the specified ILogDB.
+func NewVerifLog(logdb ILogDB) *VerifLog {
+	return &VerifLog{l: newEntryLog(logdb, server.NewInMemRateLimiter(0))}
+}
+
+// FirstIndex ...
+func (v *VerifLog) FirstIndex() uint64 { return v.l.firstIndex() }
+
+// LastIndex ...
+func (v *VerifLog) LastIndex() uint64 { return v.l.lastIndex() }
+
+// Committed ...
+func (v *VerifLog) Committed() uint64 { return v.l.committed }
+
+// Processed ...
+func (v *VerifLog) Processed() uint64 { return v.l.processed }
+
+// Term ...
+func (v *VerifLog) Term(index uint64) (uint64, error) { return v.l.term(index) }
+
+// LastTerm ...
+func (v *VerifLog) LastTerm() (uint64, error) { return v.l.lastTerm() }
+
+// GetEntries ...
+func (v *VerifLog) GetEntries(low, high, maxSize uint64) ([]pb.Entry, error) {
+	return v.l.getEntries(low, high, maxSize)
+}
+
+// Entries ...
+func (v *VerifLog) Entries(start, maxSize uint64) ([]pb.Entry, error) {
+	return v.l.entries(start, maxSize)
+}
+
+// GetCommittedEntries ...
+func (v *VerifLog) GetCommittedEntries(low, high, maxSize uint64) ([]pb.Entry, error) {
+	return v.l.getCommittedEntries(low, high, maxSize)
+}
+
+// EntriesToSave ...
+func (v *VerifLog) EntriesToSave() []pb.Entry { return v.l.entriesToSave() }
+
+// EntriesToApply ...
+func (v *VerifLog) EntriesToApply() ([]pb.Entry, error) { return v.l.entriesToApply() }
+
+// GetEntriesToApply ...
+func (v *VerifLog) GetEntriesToApply(limit uint64) ([]pb.Entry, error) {
+	return v.l.getEntriesToApply(limit)
+}
+
+// HasEntriesToApply ...
+func (v *VerifLog) HasEntriesToApply() bool { return v.l.hasEntriesToApply() }
+
+// HasMoreEntriesToApply ...
+func (v *VerifLog) HasMoreEntriesToApply(appliedTo uint64) bool {
+	return v.l.hasMoreEntriesToApply(appliedTo)
+}
+
+// Append ...
+func (v *VerifLog) Append(ents []pb.Entry) { v.l.append(ents) }
+
+// TryAppend ...
+func (v *VerifLog) TryAppend(index uint64, ents []pb.Entry) (bool, error) {
+	return v.l.tryAppend(index, ents)
+}
+
+// MatchTerm ...
+func (v *VerifLog) MatchTerm(index, term uint64) (bool, error) { return v.l.matchTerm(index, term) }
+
+// UpToDate ...
+func (v *VerifLog) UpToDate(index, term uint64) (bool, error) { return v.l.upToDate(index, term) }
+
+// TryCommit ...
+func (v *VerifLog) TryCommit(index, term uint64) (bool, error) { return v.l.tryCommit(index, term) }
+
+// CommitTo ...
+func (v *VerifLog) CommitTo(index uint64) { v.l.commitTo(index) }
+
+// CommitUpdate ...
+func (v *VerifLog) CommitUpdate(cu pb.UpdateCommit) { v.l.commitUpdate(cu) }
+
+// Restore ...
+func (v *VerifLog) Restore(ss pb.Snapshot) { v.l.restore(ss) }
+
+// Snapshot ...
+func (v *VerifLog) Snapshot() pb.Snapshot { return v.l.snapshot() }
+
+// InMemSnapshot returns the not yet saved snapshot held in memory, if any.
+func (v *VerifLog) InMemSnapshot() (pb.Snapshot, bool) {
+	if v.l.inmem.snapshot != nil {
+		return *v.l.inmem.snapshot, true
+	}
+	return pb.Snapshot{}, false
+}
+
+// InMemResize forces a resize of the in memory entry slice.
+func (v *VerifLog) InMemResize() { v.l.inmem.resize() }
+
+// InMemTryResize ...
+func (v *VerifLog) InMemTryResize() { v.l.inmem.tryResize() }
+
+// InMemState returns (markerIndex, savedTo, number of entries, appliedToIndex).
+func (v *VerifLog) InMemState() (uint64, uint64, int, uint64) {
+	im := &v.l.inmem
+	return im.markerIndex, im.savedTo, len(im.entries), im.appliedToIndex
+}
+
+// VerifGetUpdateCommit exposes getUpdateCommit.
+func VerifGetUpdateCommit(ud pb.Update) pb.UpdateCommit { return getUpdateCommit(ud) }
